@@ -158,6 +158,12 @@ def make_flags(n, fs):
 
 
 def write_table(path, xs, ys, flags, errs=None, deco=0):
+    # deco 3..5 = deco 0..2 plus an error column the tool is not asked to use ("x y yerr flag" as written by csg_stat /
+    # csg_fmatch / --with-errors runs; the readers document "the last column is the flag")
+    if deco >= 3:
+        deco -= 3
+        if errs is None:
+            errs = [f"{0.5 + 0.125 * (i % 5):g}" for i in range(len(xs))]
     with open(path, "w") as f:
         if deco >= 1:
             f.write("# generated table\n")
@@ -280,7 +286,7 @@ st_flags = st.one_of(
                                lf=st.sampled_from("ou"), tf=st.sampled_from("ou"))),
     st.fixed_dictionaries(dict(mode=st.just("scatter"), seed=st.integers(0, 65535), pct=st.integers(1, 60))))
 
-st_deco = st.integers(0, 2)
+st_deco = st.sampled_from([0, 1, 2, 0, 1, 2, 3, 4, 5])
 
 
 def st_num(lo, hi, den):
@@ -1264,6 +1270,15 @@ ST_DISPATCH = st.fixed_dictionaries(dict(key=st.sampled_from(sorted(DISPATCH)), 
                                          fn=st_fn(["lin", "quad", "sin", "exp"])))
 
 
+def _with_layout_class(run):
+    def wrapped(case, ctx, d):
+        r = run(case, ctx, d)
+        if isinstance(case, dict) and case.get("deco", 0) >= 3:
+            r.cls("input-with-error-column-not-asked-for")
+        return r
+    return wrapped
+
+
 SUBS = [
     dict(name="update_ibi_pot", strategy=ST_IBI, run=run_ibi, share=1.6),
     dict(name="dist_boltzmann_invert", strategy=ST_BOLTZ, run=run_boltz, share=1.4),
@@ -1277,3 +1292,5 @@ SUBS = [
     dict(name="integrate_differentiate", strategy=ST_INTDIFF, run=run_intdiff, share=1.0),
     dict(name="csg_call_dispatch", strategy=ST_DISPATCH, run=run_dispatch, share=0.15),
 ]
+for _s in SUBS:
+    _s["run"] = _with_layout_class(_s["run"])
